@@ -3,7 +3,7 @@
    (mcf_model_optimal_if_A_idle), with the premises that are still open listed explicitly. *)
 From Coq Require Import ZArith List Bool Lia ZifyBool.
 From Centro Require Import Base.Sx Base.EmdBase Spec.Emd Model.Emd Model.EmdCert Model.EmdMcf Model.EmdAsIs Model.EmdP
-  Proofs.EmdDuality Proofs.EmdMcfCert Proofs.EmdIndex Proofs.EmdOptimal Proofs.EmdNoWrap Proofs.EmdProgLL.
+  Proofs.EmdDuality Proofs.EmdMcfCert Proofs.EmdIndex Proofs.EmdOptimal Proofs.EmdNoWrap Proofs.EmdProgLL Proofs.EmdDist Proofs.EmdModel Proofs.EmdGraphShape.
 Import ListNotations.
 Open Scope Z_scope.
 
@@ -76,6 +76,28 @@ Proof.
   split; [exact A|]. split; [exact B|exact C].
 Qed.
 
+(* the distance: below the bound and with the flag clear, the number min_cost_flow as written for int
+   returns IS the minimum cost of the graph it was given: it is the cost of a feasible flow and no
+   feasible flow is cheaper *)
+Theorem mcf_int32_returns_min_cost e c md x :
+  okp (min_cost_flow_p e c) = true ->
+  run wrap32 (min_cost_flow_p e c) = (0, md, x) ->
+  length c = length e ->
+  (forall l tc, In l c -> In tc l -> (fst tc < length e)%nat /\ 0 <= snd tc) ->
+  zsum e = 0 ->
+  forall r fl, mcf_iter_f ssp_levels (mcf_init e c) false = (r, fl) -> fl = false ->
+  let sk := sk_of c in
+  (exists f, (forall k, In k (idx sk) -> 0 <= f k) /\ (forall v, (v < length e)%nat -> gout sk f v = nz e v) /\ md = gcost sk f) /\
+  (forall g, (forall k, In k (idx sk) -> 0 <= g k) -> (forall v, (v < length e)%nat -> gout sk g v = nz e v) -> md <= gcost sk g).
+Proof.
+  intros OK RW LC GC SE r fl RUN FL. cbv zeta.
+  destruct (mcf_int32_optimal_below_bound e c md x OK RW LC GC SE r fl RUN FL) as [st [-> [_ [EM [A [B C]]]]]].
+  pose proof (dist_is_capflow_cost (length e) c LC GC e st fl eq_refl RUN FL) as D.
+  split.
+  - exists (capflow c (m_rb st)). split; [exact A|]. split; [exact B|]. rewrite EM. exact D.
+  - intros g G1 G2. rewrite EM, D. apply C; auto.
+Qed.
+
 (* end to end.  PROVED: below the bound (no_wrap_b, evaluated per case), a finished run of the int32
    code as written returns exactly the distance and flow of the flagged line-level model.
    REMAINING PREMISES, listed: (flag clear) the run's companion flag is false — evaluated per case;
@@ -96,3 +118,188 @@ Proof.
   injection AW as <- <-. split; [exists fl0; reflexivity|].
   intros d' F' H RB. injection H as <- <- ->. repeat split; auto.
 Qed.
+
+(* ---------------------------------------------------------------- the graph emd_hat_impl hands to the solver is well formed *)
+Lemma fold_max_ge (f : nat -> Z) : forall l a, a <= fold_left (fun a j => if a <? f j then f j else a) l a.
+Proof. induction l as [|j l IH]; intros a; cbn [fold_left]; [lia|]. etransitivity; [|apply IH]. destruct (a <? f j) eqn:E; lia. Qed.
+Lemma fold_max2_ge (f : nat -> nat -> Z) idx0 : forall l a,
+  a <= fold_left (fun a i => fold_left (fun a j => if a <? f i j then f i j else a) idx0 a) l a.
+Proof. induction l as [|i l IH]; intros a; cbn [fold_left]; [lia|]. etransitivity; [|apply IH]. apply (fold_max_ge (f i)). Qed.
+
+Lemma red_c_nonneg N maxC reg C : 0 <= maxC -> (forall i j, 0 <= C i j) ->
+  forall l, In l (red_c N maxC reg C) -> forall tc, In tc l -> 0 <= snd tc.
+Proof.
+  intros HM HC l Hl tc Htc. unfold red_c in Hl. cbv zeta in Hl.
+  apply in_app_or in Hl. destruct Hl as [Hl|Hl].
+  - apply in_map_iff in Hl. destruct Hl as [i [<- _]]. apply in_app_or in Htc. destruct Htc as [H|[<-|[<-|[]]]]; cbn [snd]; try lia.
+    apply in_map_iff in H. destruct H as [j [<- _]]. cbn [snd]. apply HC.
+  - apply in_app_or in Hl. destruct Hl as [Hl|Hl].
+    + apply in_map_iff in Hl. destruct Hl as [i [<- _]]. destruct Htc as [<-|[]]. cbn [snd]. lia.
+    + apply in_app_or in Hl. destruct Hl as [[<-|[]]|[<-|[]]].
+      * apply in_app_or in Htc. destruct Htc as [H|[<-|[]]]; cbn [snd]; try lia.
+        apply in_map_iff in H. destruct H as [j [<- _]]. cbn [snd]. lia.
+      * apply in_map_iff in Htc. destruct Htc as [i [<- _]]. cbn [snd]. lia.
+Qed.
+
+Lemma rename_cc_wf old c0 : (forall l, In l c0 -> forall tc, In tc l -> 0 <= snd tc) ->
+  forall l tc, In l (rename_cc old c0) -> In tc l -> (fst tc < length old)%nat /\ 0 <= snd tc.
+Proof.
+  intros H l tc Hl Htc. unfold rename_cc in Hl. apply in_map_iff in Hl. destruct Hl as [v [<- _]].
+  apply in_flat_map in Htc. destruct Htc as [tc0 [H0 Ht]].
+  destruct (index_of (fst tc0) old 0) as [t|] eqn:EI; [|destruct Ht]. destruct Ht as [<-|[]]. cbn [fst snd].
+  apply index_of_spec in EI. destruct EI as [_ EI]. rewrite Nat.sub_0_r in EI.
+  split; [apply nth_error_Some; rewrite EI; discriminate|].
+  destruct (nth_in_or_default v c0 []) as [IN|E]; [apply (H _ IN _ H0)|rewrite E in H0; destruct H0].
+Qed.
+
+Theorem reduce_wf Pc Qc Cc emp : length Pc = length Qc -> (forall i j, 0 <= mz Cc i j) ->
+  let r := reduce Pc Qc Cc emp in
+  length (r_cc r) = length (r_bb r) /\
+  (forall l tc, In l (r_cc r) -> In tc l -> (fst tc < length (r_bb r))%nat /\ 0 <= snd tc) /\
+  zsum (r_bb r) = 0.
+Proof.
+  intros LPQ HC. cbv zeta. split; [|split]; [| |apply reduce_balanced; exact LPQ].
+  - unfold reduce. cbv zeta. cbn [r_cc r_bb]. unfold rename_cc. rewrite !map_length, !app_length, map_length. reflexivity.
+  - unfold reduce. cbv zeta. cbn [r_cc r_bb]. intros l tc Hl Htc.
+    match type of Hl with In l (rename_cc ?old ?c0) =>
+      assert (W : forall l0, In l0 c0 -> forall tc0, In tc0 l0 -> 0 <= snd tc0);
+      [|destruct (rename_cc_wf old c0 W l tc Hl Htc) as [A B]] end.
+    + apply red_c_nonneg.
+      * apply (fold_max2_ge (fun i j => if zsum Pc <? zsum Qc then mz Cc j i else mz Cc i j) (seq 0 (length Pc)) (seq 0 (length Pc)) 0).
+      * intros i j. destruct (zsum Pc <? zsum Qc); apply HC.
+    + split; [|exact B]. rewrite !app_length, map_length. rewrite app_length in A. cbn [length] in *. exact A.
+Qed.
+
+(* ---------------------------------------------------------------- the distance, end to end down to the reduced graph *)
+Definition is_mincost (e : list Z) (c : list (list (nat * Z))) (m : Z) : Prop :=
+  let sk := sk_of c in
+  (exists f, (forall k, In k (idx sk) -> 0 <= f k) /\ (forall v, (v < length e)%nat -> gout sk f v = nz e v) /\ m = gcost sk f) /\
+  (forall g, (forall k, In k (idx sk) -> 0 <= g k) -> (forall v, (v < length e)%nat -> gout sk g v = nz e v) -> m <= gcost sk g).
+
+Lemma ll_min_cost e c md x : length c = length e ->
+  (forall l tc, In l c -> In tc l -> (fst tc < length e)%nat /\ 0 <= snd tc) -> zsum e = 0 ->
+  min_cost_flow_ll_f e c = Some (md, x, false) -> is_mincost e c md.
+Proof.
+  intros LC GC SE. unfold min_cost_flow_ll_f.
+  destruct (mcf_iter_f ssp_levels (mcf_init e c) false) as [r fl] eqn:RUN. destruct r as [st|st|]; try discriminate.
+  intros H. injection H as <- _ ->.
+  destruct (mcf_model_optimal_if_A_idle (length e) c e st false LC GC eq_refl SE RUN eq_refl) as [A [B C]].
+  pose proof (dist_is_capflow_cost (length e) c LC GC e st false eq_refl RUN eq_refl) as D.
+  split.
+  - exists (capflow c (m_rb st)). split; [exact A|]. split; [exact B|exact D].
+  - intros g G1 G2. rewrite D. apply C; auto.
+Qed.
+
+Theorem emd_impl_dist ft PO QO Pc Qc Cc emp F0 d F : length Pc = length Qc -> (forall i j, 0 <= mz Cc i j) ->
+  emd_impl_llf ft PO QO Pc Qc Cc emp F0 = Some (d, F, false) ->
+  let r := reduce Pc Qc Cc emp in
+  exists md, is_mincost (r_bb r) (r_cc r) md /\ d = r_pre r + md + r_diff r * r_pen r.
+Proof.
+  intros LPQ HC. unfold emd_impl_llf. cbv zeta.
+  destruct (reduce_wf Pc Qc Cc emp LPQ HC) as [L [G S]]. cbv zeta in L, G, S.
+  destruct (min_cost_flow_ll_f (r_bb (reduce Pc Qc Cc emp)) (r_cc (reduce Pc Qc Cc emp))) as [[[md x] fl]|] eqn:EM; [|discriminate].
+  intros H.
+  assert (E : fl = false /\ d = r_pre (reduce Pc Qc Cc emp) + md + r_diff (reduce Pc Qc Cc emp) * r_pen (reduce Pc Qc Cc emp)).
+  { destruct (ft =? 2); [destruct (transform_flow_to_regular _ _ _); [|discriminate]|]; injection H as <- _ <-; auto. }
+  destruct E as [-> ->]. exists md. split; [|reflexivity]. apply (ll_min_cost _ _ md x L G S EM).
+Qed.
+
+Definition mat_nonneg (M : list (list Z)) : Prop := forall row, In row M -> forall z, In z row -> 0 <= z.
+Lemma mz_nonneg M : mat_nonneg M -> forall i j, 0 <= mz M i j.
+Proof.
+  intros H i j. unfold mz. destruct (nth_in_or_default i M []) as [IN|E].
+  - destruct (nth_in_or_default j (nth i M []) 0) as [IN2|E2]; [apply (H _ IN _ IN2)|rewrite E2; lia].
+  - rewrite E. destruct j; cbn; lia.
+Qed.
+Lemma in_firstn_local {A} : forall n (l : list A) x, In x (firstn n l) -> In x l.
+Proof. induction n as [|n IH]; intros l x H; [destruct H|]. destruct l as [|a l]; [destruct H|]. cbn [firstn] in H. destruct H as [<-|H]; [left; auto|right; apply IH; auto]. Qed.
+Lemma resize_length n l : length (resize n l) = n.
+Proof. unfold resize. rewrite app_length, firstn_length, repeat_length. lia. Qed.
+Lemma resize_nonneg n l : (forall z, In z l -> 0 <= z) -> forall z, In z (resize n l) -> 0 <= z.
+Proof.
+  intros H z Hz. unfold resize in Hz. apply in_app_or in Hz. destruct Hz as [Hz|Hz].
+  - apply H. eapply in_firstn_local; eauto.
+  - apply repeat_spec in Hz. lia.
+Qed.
+
+(* the arguments emd_hat_impl's reduction is called with: padded, and after the metric pre-flow if any *)
+Definition call_args (p q : list Z) (c : list (list Z)) (gd : bool) : list Z * list Z * list (list Z) :=
+  let plen := length p in
+  let qlen := length q in
+  let '(vp, vq, vc) :=
+    if (qlen <? plen)%nat then (p, resize plen q, map (resize plen) c)
+    else if (plen <? qlen)%nat then (resize qlen p, q, c ++ repeat (zeros qlen) (qlen - plen))
+    else (p, q, c) in
+  if gd then let pf := preflow vp vq in (map (fun t => fst (fst t)) pf, map (fun t => snd (fst t)) pf, vc)
+  else (vp, vq, vc).
+
+Theorem ll_dist_decomposition p q c pen ft gd d F : mat_nonneg c ->
+  emd_hat_int32_llf p q c pen ft gd = Some (d, F, false) ->
+  let '(Pc, Qc, Cc) := call_args p q c gd in
+  let r := reduce Pc Qc Cc (match pen with Some v => v | None => -1 end) in
+  exists md, is_mincost (r_bb r) (r_cc r) md /\ d = r_pre r + md + r_diff r * r_pen r.
+Proof.
+  intros HC. unfold emd_hat_int32_llf, call_args. cbv zeta.
+  destruct (if (length q <? length p)%nat then (p, resize (length p) q, map (resize (length p)) c)
+            else if (length p <? length q)%nat then (resize (length q) p, q, c ++ repeat (zeros (length q)) (length q - length p))
+            else (p, q, c)) as [[vp vq] vc] eqn:EV.
+  assert (W : length vp = length vq /\ mat_nonneg vc).
+  { destruct (length q <? length p)%nat eqn:E1; [|destruct (length p <? length q)%nat eqn:E2]; injection EV as <- <- <-.
+    - split; [rewrite resize_length; reflexivity|]. intros row Hr z Hz. apply in_map_iff in Hr. destruct Hr as [row0 [<- H0]].
+      apply (resize_nonneg _ _ (HC row0 H0) z Hz).
+    - split; [rewrite resize_length; reflexivity|]. intros row Hr z Hz. apply in_app_or in Hr. destruct Hr as [Hr|Hr]; [apply (HC row Hr z Hz)|].
+      apply repeat_spec in Hr. subst row. unfold zeros in Hz. apply repeat_spec in Hz. lia.
+    - split; [|exact HC]. apply Nat.ltb_ge in E1, E2. lia. }
+  destruct W as [LV NV]. unfold emd_hat_llf. cbv zeta.
+  destruct gd.
+  - destruct (emd_impl_llf ft vp vq _ _ vc _ _) as [[[d0 F0] fl0]|] eqn:EI; [|discriminate].
+    intros H. assert (E : d0 = d /\ fl0 = false) by (destruct (ft =? 0); injection H as <- _ <-; auto). destruct E as [-> ->].
+    assert (LM : length (map (fun t : Z * Z * Z => fst (fst t)) (preflow vp vq)) = length (map (fun t : Z * Z * Z => snd (fst t)) (preflow vp vq)))
+      by (rewrite !map_length; reflexivity).
+    pose proof (emd_impl_dist _ _ _ _ _ _ _ _ _ _ LM (mz_nonneg vc NV) EI) as X.
+    cbv zeta in X. cbv beta iota zeta. exact X.
+  - destruct (emd_impl_llf ft vp vq vp vq vc _ _) as [[[d0 F0] fl0]|] eqn:EI; [|discriminate].
+    intros H. assert (E : d0 = d /\ fl0 = false) by (destruct (ft =? 0); injection H as <- _ <-; auto). destruct E as [-> ->].
+    pose proof (emd_impl_dist _ _ _ _ _ _ _ _ _ _ LV (mz_nonneg vc NV) EI) as X.
+    cbv zeta in X. cbv beta iota zeta. exact X.
+Qed.
+
+(* composed with the int32 chain *)
+Theorem emd_int32_dist_below_bound p q c pen ft gd d F : mat_nonneg c ->
+  no_wrap_b p q c pen ft gd = true ->
+  emd_int32_as_written p q c pen ft gd = (0, d, F) ->
+  exists fl, emd_hat_int32_llf p q c pen ft gd = Some (d, F, fl) /\
+    (fl = false ->
+     let '(Pc, Qc, Cc) := call_args p q c gd in
+     let r := reduce Pc Qc Cc (match pen with Some v => v | None => -1 end) in
+     exists md, is_mincost (r_bb r) (r_cc r) md /\ d = r_pre r + md + r_diff r * r_pen r).
+Proof.
+  intros HC NW AW. destruct (emd_int32_correct_below_bound_partial p q c pen ft gd d F NW AW) as [[fl E] _].
+  exists fl. split; [exact E|]. intros ->. apply (ll_dist_decomposition p q c pen ft gd d F HC E).
+Qed.
+
+(* the premise that is left: the graph reduction of emd_hat_impl.hpp is value-preserving — a statement
+   about `reduce` only (no solver, no int32): pre-flow cost + minimum cost of the reduced graph
+   + |sum P - sum Q| * penalty is the earth mover's distance of the original call *)
+Definition graph_reduction_correct_on (p q : list Z) (c : list (list Z)) (pen : option Z) (gd : bool) : Prop :=
+  let '(Pc, Qc, Cc) := call_args p q c gd in
+  let r := reduce Pc Qc Cc (match pen with Some v => v | None => -1 end) in
+  forall md, is_mincost (r_bb r) (r_cc r) md ->
+  emd_spec p q c (penalty_of c pen) (r_pre r + md + r_diff r * r_pen r).
+
+Theorem emd_int32_correct_below_bound_partial2 p q c pen ft gd d F : mat_nonneg c ->
+  no_wrap_b p q c pen ft gd = true ->
+  emd_int32_as_written p q c pen ft gd = (0, d, F) ->
+  (forall fl, emd_hat_int32_llf p q c pen ft gd = Some (d, F, fl) -> fl = false) ->   (* flag clear, per case *)
+  graph_reduction_correct_on p q c pen gd ->                                           (* open *)
+  emd_spec p q c (penalty_of c pen) d.
+Proof.
+  intros HC NW AW FLC GR. destruct (emd_int32_dist_below_bound p q c pen ft gd d F HC NW AW) as [fl [E D]].
+  specialize (D (FLC fl E)). unfold graph_reduction_correct_on in GR.
+  destruct (call_args p q c gd) as [[Pc Qc] Cc]. cbv zeta in *. destruct D as [md [M ->]]. apply GR. exact M.
+Qed.
+
+Theorem emd_int32_is_flagged_ll p q c pen ft gd d F :
+  no_wrap_b p q c pen ft gd = true -> emd_int32_as_written p q c pen ft gd = (0, d, F) ->
+  exists fl, emd_hat_int32_llf p q c pen ft gd = Some (d, F, fl).
+Proof. intros NW AW. destruct (emd_int32_correct_below_bound_partial p q c pen ft gd d F NW AW) as [H _]. exact H. Qed.
